@@ -317,6 +317,7 @@ structure RunFacts (cfg : DispCfg) (h : Int) (s s' : DispState) (os : List (Key 
   claimsShrink : ∀ k, sGet s'.claims k = some () → sGet s.claims k = some ()
   skippedOnlyInvalid : ∀ x ∈ os, x.2.2 = .skipped → cfg.validAddr x.2.1.rcpt = false
   failedOnlyRefused : ∀ x ∈ os, x.2.2 = .failed → cfg.validAddr x.2.1.rcpt = true
+  skippedStays : ∀ x ∈ os, x.2.2 = .skipped → sGet s'.pending x.1 = sGet s.pending x.1
 
 theorem sGet_sDel_some {α} {st : Store α} (hs : Sorted st) {k0 k : Key} {v : α}
     (h : sGet (sDel st k0) k = some v) : sGet st k = some v ∧ k ≠ k0 := by
@@ -352,6 +353,7 @@ theorem payAll_spec (cfg : DispCfg) (h : Int) :
     · intro x hx; cases hx
     · intro x hx; cases hx
     · exact fun _ h => h
+    · intro x hx; cases hx
     · intro x hx; cases hx
     · intro x hx; cases hx
   | cons x rest ih =>
@@ -405,7 +407,7 @@ theorem payAll_spec (cfg : DispCfg) (h : Int) :
           split at hk
           · exact (sGet_sDel_some hi.wf.sl hk).1
           · exact hk
-      refine ⟨?_, ?_, ?_, ?_, ?_, ?_, ?_, ?_, ?_, ?_, ?_, ?_, ?_, ?_, ?_⟩
+      refine ⟨?_, ?_, ?_, ?_, ?_, ?_, ?_, ?_, ?_, ?_, ?_, ?_, ?_, ?_, ?_, ?_⟩
       · intro k r' hk; exact hshrink1 k r' (hf.shrink k r' hk)
       · intro y hy hne
         simp at hy
@@ -535,5 +537,18 @@ theorem payAll_spec (cfg : DispCfg) (h : Int) :
           cases hrel with
           | failed ha _ => exact ha
         · exact hf.failedOnlyRefused y hy hp
+      · intro y hy hp
+        simp at hy
+        rcases hy with rfl | hy
+        · simp only at hp ⊢
+          subst hp
+          rw [hf.keep r.key hkeys]
+          cases hrel with
+          | skipped _ => rfl
+        · rw [hf.skippedStays y hy hp]
+          have hne : y.1 ≠ r.key := hkeys y hy
+          rcases hpend1 with e | e
+          · rw [e]
+          · rw [e]; exact sGet_sDel_other _ _ _ hne
 
 end Sif.Disp
